@@ -626,8 +626,8 @@ def undefine_unused_variables(source: str, preserve: Collection[str] = frozenset
             ast.AnnAssign(target=ast.Name(id="_")),
             ast.AugAssign(target=ast.Name(id="_")),
     ),):
-        if "_" in preserve:
-            # Something assigned to _ is meant to stay, for example _ = gettext.gettext
+        if "_" in preserve or any(core.walk(root, ast.Name(id="_", ctx=ast.Load))):
+            # Something assigned to _ that is meant to stay, or that is read: _ = gettext.gettext
             continue
         if node not in class_body_blacklist:
             yield node, node.value
